@@ -808,6 +808,15 @@ impl Gen {
             let n = *self.rng.pick(&[17usize, 25, 32, 33, 40, 64, 65]);
             let lead = "ab"[..self.rng.usize_below(3)].to_string();
             name = format!("{}{}", lead, c.to_string().repeat(n));
+            if self.rng.chance(300) {
+                // 28..31 units, then a character that takes two
+                let units = 28 + self.rng.usize_below(4);
+                name = if self.rng.chance(500) { "-".repeat(units) } else { "Ab".repeat(units) };
+                name.push('😀');
+                if self.rng.chance(300) {
+                    name.push_str("x");
+                }
+            }
         }
         if allow_odd && self.rng.chance(30) {
             name = self
@@ -835,7 +844,7 @@ impl Gen {
     }
 
     fn gen_wsteps(&mut self) -> Vec<WStep> {
-        let base = *self.rng.pick(&[0u32, 1, 63, 64, 65, 500, 4095, 4096, 4097, 8191, 8192, 8193, 12000, 20000]);
+        let base = *self.rng.pick(&[0u32, 1, 63, 64, 65, 500, 4095, 4096, 4097, 8191, 8192, 8193, 12000, 16384, 16385, 20000, 40000]);
         let len = if base > 100 && self.rng.chance(300) { base + self.rng.below(200) as u32 } else { base };
         let mut steps = Vec::new();
         let mut left = len;
@@ -1129,7 +1138,25 @@ impl Gen {
             let mut bad = self.gen_row(&t);
             let ci = self.rng.usize_below(t.cols.len());
             let c = &t.cols[ci];
-            match self.rng.below(9) {
+            match self.rng.below(10) {
+                9 => {
+                    // a value that occurs, validly, in another column of this batch
+                    let mut done = false;
+                    for cj in 0..t.cols.len() {
+                        if cj == ci {
+                            continue;
+                        }
+                        let v = rows.first().map(|r| r[cj].clone()).unwrap_or_else(|| bad[cj].clone());
+                        if !value_valid(c, &v) {
+                            bad[ci] = v;
+                            done = true;
+                            break;
+                        }
+                    }
+                    if !done {
+                        bad.pop();
+                    }
+                }
                 0 => {
                     bad.pop();
                 }
@@ -1433,6 +1460,69 @@ impl Gen {
         self.push(Op::Observe);
     }
 
+    /// Text the database code page cannot encode is accepted (and stored with
+    /// replacement characters at the next save); here it is put into a cell and
+    /// taken out again before anything is saved, so the model stays exact.
+    fn macro_unencodable(&mut self) {
+        let cp = self.model.db_cp;
+        if cp == 65001 || cp == 0 {
+            return;
+        }
+        let bad: Vec<char> = ['☃', '漢', 'ж', '€', 'ü', '😀'].iter().cloned().filter(|c| !crate::cp::roundtrips(cp, *c)).collect();
+        if bad.is_empty() {
+            return;
+        }
+        let ts = self.user_plain_tables();
+        if ts.is_empty() {
+            return;
+        }
+        let table = self.rng.pick(&ts).clone();
+        let t = self.model.tables.get(&table).unwrap().clone();
+        let cands: Vec<usize> = (0..t.cols.len())
+            .filter(|&i| {
+                let c = &t.cols[i];
+                !c.key && c.category.is_none() && c.enums.is_empty() && matches!(c.ty, CType::Str(w) if w == 0 || w >= 16)
+            })
+            .collect();
+        if cands.is_empty() || t.rows.is_empty() {
+            return;
+        }
+        let ci = *self.rng.pick(&cands);
+        let tok = self.token(false);
+        let v = Val::Str(format!("{}{}{}", tok, self.rng.pick(&bad), self.rng.pick(&bad)));
+        let k0 = t.key_idx()[0];
+        let target = t.rows[self.rng.usize_below(t.rows.len())][k0].clone();
+        let cond = Some(Cond::Cmp(t.cols[k0].name.clone(), CmpOp::Eq, target));
+        let sets = vec![(t.cols[ci].name.clone(), v)];
+        match self.model.plan_update(&table, &sets, &cond) {
+            Ok(nt) => {
+                self.model.tables.insert(table.clone(), nt);
+                self.push(Op::Update { table: table.clone(), sets, cond: cond.clone() });
+            }
+            Err(_) => return,
+        }
+        self.push(Op::Observe);
+        let clean = if t.cols[ci].nullable && self.rng.chance(500) { Val::Null } else { Val::Str(self.token(false)) };
+        let sets = vec![(t.cols[ci].name.clone(), clean)];
+        if let Ok(nt) = self.model.plan_update(&table, &sets, &cond) {
+            self.model.tables.insert(table.clone(), nt);
+            self.push(Op::Update { table, sets, cond });
+        }
+    }
+
+    /// A save window whose only change is one summary setter (per-setter dirty
+    /// tracking shows here and nowhere else).
+    fn macro_single_summary(&mut self) {
+        let r1 = self.op_restart();
+        self.push(r1);
+        if let Some(op) = self.op_summary() {
+            self.push(op);
+        }
+        let r2 = self.op_restart();
+        self.push(r2);
+        self.push(Op::Observe);
+    }
+
     // ------------------------------------------------------------ live handles
 
     fn op_handle(&mut self) -> Option<Op> {
@@ -1467,7 +1557,7 @@ impl Gen {
             1 if written > 0 && !self.handles_open[i].3.iter().any(|s| matches!(s, WStep::Seek(_))) => {
                 WStep::Seek(self.rng.below(written as u64 + 1) as u32)
             }
-            _ => WStep::Write(*self.rng.pick(&[1u32, 10, 100, 1000, 4096, 4097, 8192, 9000])),
+            _ => WStep::Write(*self.rng.pick(&[1u32, 10, 100, 1000, 4096, 4097, 8192, 9000, 16385, 20000])),
         };
         let (h, name, dseed, steps) = &mut self.handles_open[i];
         steps.push(step.clone());
@@ -1491,6 +1581,14 @@ impl Gen {
         }
         if matches!(self.profile, Profile::Clean | Profile::Benign | Profile::Crash | Profile::Reject | Profile::Schema) && self.rng.chance(35) {
             self.macro_quiet_bump();
+            return;
+        }
+        if matches!(self.profile, Profile::Reject | Profile::Clean | Profile::Foreign) && self.handles_open.is_empty() && self.rng.chance(25) {
+            self.macro_unencodable();
+            return;
+        }
+        if matches!(self.profile, Profile::Summary | Profile::Clean | Profile::Foreign | Profile::Crash) && self.handles_open.is_empty() && self.rng.chance(if self.profile == Profile::Summary { 40 } else { 8 }) {
+            self.macro_single_summary();
             return;
         }
         if matches!(self.profile, Profile::Clean | Profile::Benign | Profile::Crash | Profile::Reject | Profile::Foreign | Profile::Streams | Profile::ReadOnly) && self.handles_open.is_empty() && self.rng.chance(5) {
@@ -1745,7 +1843,48 @@ pub fn gen_foreign_spec_ext(rng: &mut Prng, big: bool, wide_ok: bool) -> Foreign
             props.push((id, p));
         }
     }
+    // a table with columns of the two categories that have a second spelling
+    let mut alt_category = false;
+    if validation && rng.chance(150) {
+        alt_category = rng.chance(600);
+        let mut k = ColSpec::new("Id", CType::I16);
+        k.key = true;
+        let mut gcol = ColSpec::new("Code", CType::Str(38));
+        gcol.nullable = true;
+        gcol.category = Some("GUID".into());
+        let mut f = ColSpec::new("Sddl", CType::Str(0));
+        f.nullable = true;
+        f.category = Some("FormattedSDDLText".into());
+        tables.push(FTable {
+            name: "GuidT".into(),
+            cols: vec![k, gcol, f],
+            rows: vec![
+                vec![Val::Int(1), Val::Str("{12345678-9ABC-DEF0-1234-56789ABCDEF0}".into()), Val::Null],
+                vec![Val::Int(2), Val::Null, Val::Str("D:(A;;GA;;;WD)".into())],
+            ],
+            sorted: true,
+            width1: false,
+        });
+    }
+    // names at the container's length limit (31 UTF-16 units: 61/62 packed characters; tables 59/60)
+    if !validation && rng.chance(300) {
+        // (only where no _Validation table would have to hold the name in a 32-character column)
+        let l = *rng.pick(&[59usize, 60]);
+        let name: String = (0..l).map(|i| if i == 0 { 'L' } else { (b'a' + (i % 26) as u8) as char }).collect();
+        let mut k = ColSpec::new("Id", CType::I16);
+        k.key = true;
+        tables.push(FTable { name, cols: vec![k], rows: vec![vec![Val::Int(7)]], sorted: true, width1: false });
+    }
     let mut streams = Vec::new();
+    if rng.chance(100) {
+        for l in [61usize, 62] {
+            if rng.chance(600) {
+                g.serial += 1;
+                let name: String = (0..l).map(|i| (b'A' + ((i * 7) % 26) as u8) as char).collect();
+                streams.push((name, 33, g.serial));
+            }
+        }
+    }
     for i in 0..rng.below(4) {
         g.serial += 1;
         let name = if rng.chance(400) {
@@ -1794,6 +1933,7 @@ pub fn gen_foreign_spec_ext(rng: &mut Prng, big: bool, wide_ok: bool) -> Foreign
             Vec::new()
         },
         saturate: None,
+        alt_category,
     }
 }
 
@@ -1975,10 +2115,10 @@ pub fn gen_corruption(rng: &mut Prng) -> CorruptSpec {
         25..=26 => CorruptSpec::CopySector(p, rng.below(1_000_000) as u32),
         27..=28 => CorruptSpec::StaleSector(p),
         29..=30 => CorruptSpec::RandomBytes(rng.below(3000) as u32, rng.next_u64() as u32),
-        31..=58 => CorruptSpec::Cell(rng.next_u64() as u32, rng.next_u64() as u32, rng.below(4) as u8),
+        31..=58 => CorruptSpec::Cell(rng.next_u64() as u32, rng.next_u64() as u32, rng.below(8) as u8),
         59..=70 => CorruptSpec::StreamLen(rng.next_u64() as u32, rng.below(5) as u8, rng.next_u64() as u32),
         71..=74 => CorruptSpec::PoolHeader(rng.below(4) as u8),
-        75..=84 => CorruptSpec::PoolEntry(rng.next_u64() as u32, rng.below(8) as u8),
+        75..=84 => CorruptSpec::PoolEntry(rng.next_u64() as u32, rng.below(10) as u8),
         85..=92 => CorruptSpec::PropSet(rng.below(18) as u8, rng.next_u64() as u32),
         93..=94 => CorruptSpec::DataHighBit(rng.next_u64() as u32),
         95..=96 => CorruptSpec::AddEntry(rng.below(8) as u8),
